@@ -143,7 +143,23 @@ func VerifC16_Sort() {
 // completion orders: Run returns, and when nothing failed every task ran.
 func VerifC16_Progress() {
 	vNativeReset()
-	s := newScenario(scenarioOpts{n: 3, maxRetries: 1, modes: true, outcomes: oErr, buffer: true})
+	s := newScenario(scenarioOpts{n: 3, maxRetries: 1, modes: true, outcomes: oErr, buffer: vThorough()})
+	s.progress()
+}
+
+// The same with buffered output always on (two tasks in the quick tier).
+func VerifC16_ProgressBuffered() {
+	vNativeReset()
+	n := 2
+	if vThorough() {
+		n = 3
+	}
+	s := newScenario(scenarioOpts{n: n, maxRetries: 1, modes: true, outcomes: oErr})
+	s.buffered = true
+	s.progress()
+}
+
+func (s *dagScenario) progress() {
 	s.build()
 	// work conservation: whenever the scheduler loop goes idle and nothing has
 	// failed, a task whose dependencies have all succeeded is running or done,
